@@ -208,6 +208,9 @@ type c08Exec struct {
 	Hash   []byte
 	Prop   []byte
 	Msgs   []*evmtypes.MsgEthereumTx // Ethereum messages of the block in order
+	Gas    []uint64                  // gas used by each of them in the block
+	Failed []bool                    // whether its execution ended with a VM error
+	Clean  bool                      // every Ethereum tx of the block that was admitted also executed (has a receipt): Msgs is the whole story
 }
 
 func c08CallArgs(from common.Address, to string, data, value string, gas uint64, al ethtypes.AccessList) []byte {
@@ -405,6 +408,28 @@ func runC08(cs c08Case) *Outcome {
 					} else {
 						o.label("call:tracetx-err")
 					}
+					// a trace replays the tx in its block (state before the block + its predecessors): with the default
+					// logger it must reproduce what the block did - same gas, same outcome
+					if c.Tracer == "" && ex.Clean && i < len(ex.Gas) {
+						if r1.Code != 0 {
+							o.dev("", "TraceTx of tx %d of block %d (executed in the block with gas %d) fails: %s", i, ex.Height, ex.Gas[i], truncS(r1.Log, 200))
+						} else {
+							var tresp evmtypes.QueryTraceTxResponse
+							var er struct {
+								Gas    uint64 `json:"gas"`
+								Failed bool   `json:"failed"`
+							}
+							if err := tresp.Unmarshal(r1.Value); err == nil && json.Unmarshal(tresp.Data, &er) == nil {
+								if er.Gas != ex.Gas[i] || er.Failed != ex.Failed[i] {
+									o.dev("", "TraceTx of tx %d of block %d reports gas %d failed=%v, the block executed it with gas %d failed=%v", i, ex.Height, er.Gas, er.Failed, ex.Gas[i], ex.Failed[i])
+								}
+								o.label("tracetx:compared-with-execution")
+								if i > 0 {
+									o.label("tracetx:compared-with-execution:has-predecessors")
+								}
+							}
+						}
+					}
 				}
 			} else {
 				req := evmtypes.QueryTraceBlockRequest{Txs: ex.Msgs, TraceConfig: traceCfg(c), BlockNumber: ex.Height, BlockHash: hex.EncodeToString(ex.Hash), BlockTime: timeOf(ex.Time), ProposerAddress: ex.Prop}
@@ -534,14 +559,21 @@ func runC08(cs c08Case) *Outcome {
 				o.dev("", "block %d tx %d: result differs between the chain that served queries and its twin (code %d/%d gas %d/%d)", bi, i, x.Code, y.Code, x.GasUsed, y.GasUsed)
 			}
 		}
-		ex := c08Exec{Height: a.Height, Time: a.Time.Unix(), Hash: a.Hashes[a.Height], Prop: chain.ValConsAddr(blk.Plan.Proposer % maxInt(1, cs.World.NumVals))}
+		ex := c08Exec{Height: a.Height, Time: a.Time.Unix(), Hash: a.Hashes[a.Height], Prop: chain.ValConsAddr(blk.Plan.Proposer % maxInt(1, cs.World.NumVals)), Clean: true}
 		for i, bt := range built {
 			if bt.Eth == nil || ra.Txs[i].Receipt == nil {
+				if ra.Txs[i].admitted() || bt.Eth == nil {
+					// admitted without executing (its nonce moved, nothing replays it), or not an Ethereum tx at all (it may
+					// have changed what the Ethereum txs after it see)
+					ex.Clean = false
+				}
 				continue
 			}
 			if dtx, err := a.TxCfg.TxDecoder()(bt.Bytes); err == nil && len(dtx.GetMsgs()) == 1 {
 				if m, ok := dtx.GetMsgs()[0].(*evmtypes.MsgEthereumTx); ok {
 					ex.Msgs = append(ex.Msgs, m)
+					ex.Gas = append(ex.Gas, ra.Txs[i].Receipt.GasUsed)
+					ex.Failed = append(ex.Failed, ra.Txs[i].Receipt.HasVMError)
 				}
 			}
 		}
